@@ -340,3 +340,49 @@ def r_singleton_groups(A, ctx, scope, rule="R-RED-SINGLETON"):
                             f"WeightedL1 (w_j = {wv}, prox input {xv}, gradient {gv})",
                        loc=loc(g2.find_method("value"), g2.find_method("value").node))
     ctx.floor(rule, n, 20)
+
+
+def r_hessian_bound_sqrt(A, ctx, scope, rule="R-HESS-BOUND"):
+    """C09: diagonal accessor documented as a bound (square-root loss)"""
+    prog = A.prog
+    sq = next((c for c in prog.datafits if c.name == "SqrtQuadratic"), None)
+    if sq is None:
+        raise AnalysisError("SqrtQuadratic missing")
+    ctx.rule(rule, "SqrtQuadratic.raw_hessian, documented as an upper bound of the Hessian: on a "
+             "two-sample problem diag(raw_hessian) - Hessian(value) (second derivatives of the "
+             "lifted value) is positive semi-definite at every witness, the nearly interpolating "
+             "one included (a comparison at witnesses: refutation only)")
+    n = 0
+    m = sq.find_method("raw_hessian")
+    for tag, (y0, y1, v0, v1) in (("generic", (1.3, -0.6, 0.4, 0.5)), ("other signs", (-0.8, 0.9, 0.3, -1.2)),
+                                   ("nearly interpolating", (1.3, -0.6, 1.3 - 0.004, -0.6 + 0.003))):
+        key = f"{sq.fq}::raw_hessian::{tag}"
+        try:
+            rg = Region({"y0": y0, "y1": y1, "v0": v0, "v1": v1})
+            L = RegionLifter(prog, rg)
+            dobj = Obj(sq, {})
+            y = Vec([sym("y0"), sym("y1")])
+            v = Vec([sym("v0"), sym("v1")])
+            val = R(L.call_function(sq.find_method("value"), [y, None, v], self_obj=dobj))
+            h = L.call_function(m, [y, v], self_obj=dobj)
+            g = [derivative(val, ("sym", f"v{i}")) for i in range(2)]
+            H = [[derivative(g[i], ("sym", f"v{j}")) for j in range(2)] for i in range(2)]
+            M = [[(R(h[i]) if i == j else const(0)) - H[i][j] for j in range(2)] for i in range(2)]
+            det = M[0][0] * M[1][1] - M[0][1] * M[1][0]
+            nd = [[rg.num(x) for x in row] for row in M]
+            detn = nd[0][0] * nd[1][1] - nd[0][1] * nd[1][0]
+            scale = max(1.0, abs(nd[0][0]), abs(nd[1][1])) ** 2
+            n += 1
+            psd = nd[0][0] >= -1e-9 and nd[1][1] >= -1e-9 and detn >= -1e-7 * scale
+            ctx.ob(rule, key, psd,
+                   what=f"SqrtQuadratic.raw_hessian does not dominate the Hessian of value() at the {tag} "
+                        f"point (y, Xw) = ({y0}, {y1}; {v0}, {v1}): diag - H = {nd} is not positive "
+                        "semi-definite, the prox-Newton model underestimates the curvature",
+                   loc=loc(m, m.node))
+        except Raised as e:
+            n += 1
+            ctx.ob(rule, key, False, what=f"SqrtQuadratic.raw_hessian raises at the {tag} point: {e}",
+                   loc=loc(m, m.node))
+        except (Unsupported, ZeroDivisionError) as e:
+            ctx.ob(rule, key, None, detail=f"not lifted: {e}")
+    ctx.floor(rule, n, 3)
